@@ -33,6 +33,7 @@ func GenSchema(r *core.Rand) Schema {
 	var s Schema
 	n := r.Weighted([]int{1, 6, 5, 3, 1}) // 0..4 measurements
 	names := r.Perm(len(measPool))
+	wide := r.Chance(1, 10) // a schema wide enough to cross size thresholds (sort algorithms, map growth)
 	for i := 0; i < n && i < len(names); i++ {
 		m := MeasurementSchema{Name: measPool[names[i]], Fields: map[string]string{}}
 		nf := r.Weighted([]int{1, 3, 4, 4, 3, 2, 1})
@@ -42,6 +43,23 @@ func GenSchema(r *core.Rand) Schema {
 		nt := r.Weighted([]int{2, 4, 4, 2, 1})
 		for _, k := range r.Perm(len(tagPool))[:nt] {
 			m.Tags = append(m.Tags, tagPool[k])
+		}
+		if wide {
+			for k := r.Range(8, 24); k > 0; k-- {
+				m.Fields["w"+strconv.Itoa(r.Intn(30))] = FieldTypes[r.Intn(len(FieldTypes))]
+			}
+			for k := r.Range(4, 12); k > 0; k-- {
+				t := "w" + strconv.Itoa(r.Intn(30)) // tags shadowing the wide fields
+				dup := false
+				for _, x := range m.Tags {
+					if x == t {
+						dup = true
+					}
+				}
+				if !dup {
+					m.Tags = append(m.Tags, t)
+				}
+			}
 		}
 		s.Measurements = append(s.Measurements, m)
 	}
